@@ -32,18 +32,18 @@ PROPS = {
     'C01': dict(streams=['write', 'dict']),
     'C02': dict(streams=['ticks', 'midix', 'write'], modules=['C02', 'C02Float']),
     'C03': dict(streams=['scale', 'conv']),
-    'C04': dict(streams=['lex', 'parse', 'conv']),
-    'C05': dict(streams=['threeway', 'conv']),
+    'C04': dict(streams=['lex', 'parse', 'conv', 'sizes']),
+    'C05': dict(streams=['threeway', 'conv', 'write']),
     'C06': dict(streams=['midix', 'write']),
     'C07': dict(streams=['ticks', 'write'], modules=['C07', 'C07Float']),
     'C08': dict(streams=['midix', 'write'], modules=['C08', 'C08Bytes']),
-    'C09': dict(streams=['robust', 'conv', 'write', 'dict']),
-    'C10': dict(streams=['conv', 'wconv', 'note', 'scale']),
-    'C11': dict(streams=['variants', 'lex']),
+    'C09': dict(streams=['robust', 'conv', 'write', 'dict', 'sizes']),
+    'C10': dict(streams=['conv', 'wconv', 'note', 'scale', 'sizes', 'repeat']),
+    'C11': dict(streams=['variants', 'lex', 'sizes']),
     'C12': dict(streams=['repeat', 'chain', 'scale'], race=True),
     'C13': dict(streams=['scale', 'diatonic']),
-    'C14': dict(streams=['chain']),
-    'C15': dict(streams=['note', 'describe']),
+    'C14': dict(streams=['chain', 'keyconv']),
+    'C15': dict(streams=['note', 'describe', 'repeat']),
     'C16': dict(streams=['dict', 'note', 'write']),
     'C17': dict(streams=['scale', 'diatonic']),
 }
